@@ -256,6 +256,9 @@ def cmd_run(a):
     if os.path.exists(a.out):
         for l in open(a.out):
             done.add(json.loads(l)["id"])
+    if a.skip:
+        done |= set(r["id"] for r in json.load(open(a.skip)))
+    muts = [m for m in muts if m["id"] not in done]
     chosen = []
     props = sorted(set(p for m in muts for p in m["props"]))
     if a.only:
@@ -342,6 +345,7 @@ def main():
     r.add_argument("--out", required=True)
     r.add_argument("--only", default=None)
     r.add_argument("--suite", action="store_true")
+    r.add_argument("--skip", default=None, help="results.json of an earlier sweep: those mutants are not drawn again")
     r.add_argument("--scratch", default="/tmp/vv-mutsweep")
     r.add_argument("--cleanup", action="store_true")
     a = ap.parse_args()
